@@ -1,23 +1,9 @@
-mod astu;
-mod bcv;
-mod corpus;
-mod fw;
-mod gproc;
-mod hval;
-mod mockfs;
-mod pack;
-mod props;
-mod qrun;
-mod refeval;
-mod replsim;
-mod sim;
-mod tygen;
-mod tysem;
-
+#[allow(unused_imports)]
+use qv::{astu, bcv, corpus, fw, gproc, hval, mockfs, pack, props, qrun, refeval, replsim, sim, tygen, tysem};
 use fw::*;
 
 fn usage() -> ! {
-    eprintln!("usage: qv check <Cxx> [--tier quick|thorough] | qv replay <file> | qv explore <name> [args]");
+    eprintln!("usage: qv check <Cxx> [--tier quick|thorough] | qv replay <file> | qv explore <name> [args] | qv fuzz <Cxx> [--runs N] [--jobs J]");
     std::process::exit(2)
 }
 
@@ -178,6 +164,17 @@ fn main() {
                     std::process::exit(1)
                 }
             }
+        }
+        "fuzz" => {
+            // qv fuzz <Cxx> [--runs N] [--jobs J] — coverage-guided campaign (see fuzzdrv.rs)
+            if args.len() < 3 {
+                usage();
+            }
+            install_panic_hook();
+            let id = args[2].clone();
+            let rest: Vec<String> = args[3..].to_vec();
+            let code = std::thread::Builder::new().stack_size(512 * 1024 * 1024).spawn(move || qv::fuzzdrv::run(&id, &rest)).expect("spawn").join().unwrap_or(2);
+            std::process::exit(code);
         }
         "explore" => {
             let rest: Vec<String> = args[2..].to_vec();
